@@ -36,6 +36,7 @@ import (
 	"github.com/postalsys/muti-metroo/internal/identity"
 	"github.com/postalsys/muti-metroo/internal/peer"
 	"github.com/postalsys/muti-metroo/internal/transport"
+	"github.com/postalsys/muti-metroo/internal/verifhook"
 	"github.com/postalsys/muti-metroo/internal/verifkit"
 )
 
@@ -44,6 +45,7 @@ type c31Start struct {
 	t      time.Time
 	reply  chan c31Reply
 	inside chan struct{} // closed by the callback once its own Schedule() call has returned
+	kAtStart int         // attempts of the address since the last success/reset, this one included
 	direct bool // manager level: dial issued by a direct Connect/ReconnectAll call of the harness
 }
 
@@ -246,6 +248,7 @@ func (m *c31Model) onStart(ev *c31Start) {
 	}
 	a.pending = nil
 	a.k++
+	ev.kAtStart = a.k
 	a.inflight = ev
 }
 
@@ -397,17 +400,23 @@ func TestVerif_C31Unit(t *testing.T) {
 	r.Rule("one case = one real peer.Reconnector (1-3 addresses, PRNG delays 8-110 ms, multiplier, jitter) driven by a PRNG walk of " +
 		"fail / fail-with-Schedule-inside-callback / succeed / hold-in-flight / Pause (during an attempt or right after arming) / quiet / Resume(+ResetAll)+Schedule / " +
 		"Cancel / Reset (also while an attempt is in flight) / external Schedule; non-trivial = >=2 retry delays judged against the lower bound and the walk contains a pause or a success; distinct by config+walk")
+	c31InstallFireHook()
 	n := r.N(220, 4000)
 	r.ParCases("walk", n, 16, func(ci int, rng *verifkit.Rand) { c31UnitCase(r, "walk", ci, rng) })
 	r.Require("attempt_starts", 500)
 	r.Require("lower_bounds_judged", 400)
 	r.Require("cases_with_pause_during_attempt", 30)
 	r.Require("quiet_periods_while_paused", 30)
+	if verifhook.Enabled {
+		r.Require("after_success_resets_judged", 40)
+		r.Require("after_success_resets_judged_with_schedule_during_attempt", 8)
+	}
 }
 
 type c31Unit struct {
 	*c31Model
-	rec *peer.Reconnector
+	rec   *peer.Reconnector
+	track *c31Track
 }
 
 func (u *c31Unit) callback(addr string) error {
@@ -443,9 +452,11 @@ func c31UnitCase(r *verifkit.R, phase string, ci int, rng *verifkit.Rand) {
 	}
 	u := &c31Unit{c31Model: newC31Model(r, phase, ci, cfg, names)}
 	u.rec = peer.NewReconnector(cfg, u.callback)
+	u.track = c31NewTrack(u.rec)
 	defer func() {
 		u.release()
 		u.rec.Stop()
+		c31Tracks.Delete(u.rec)
 		u.finishEval("unit")
 	}()
 
@@ -470,11 +481,31 @@ func c31UnitCase(r *verifkit.R, phase string, ci int, rng *verifkit.Rand) {
 			if rearmed != nil {
 				a.optional = &c31Arm{t: rearmed.t, k: 0, n: 1}
 			}
+			kBefore := ev.kAtStart
 			ev.reply <- c31Reply{}
-			// synchronise (not a verdict): let the reconnector finish handling the success, so
-			// that a later Schedule() of the harness is not swallowed by the state deletion
+			// Quiescent point after the success (hook points fire/fired): the run of consecutive
+			// failures is over, so the reconnector's failure count for the address must be 0 again
+			// (state dropped, or kept with a reset backoff) -- otherwise the next retry is not
+			// "retry 0" and waits initial*mult^k instead of initial.
+			if n, ok := u.track.atRest(a.name, func() int { return u.rec.GetAttempts(a.name) }); ok {
+				r.Add("after_success_resets_judged", 1)
+				if rearmed != nil {
+					r.Add("after_success_resets_judged_with_schedule_during_attempt", 1)
+				}
+				if n != 0 {
+					cls := "plain-success"
+					if rearmed != nil {
+						cls = "schedule-during-succeeding-attempt"
+					}
+					u.violate(cls+":failure-count-not-reset-after-success", fmt.Sprintf(
+						"attempt %d of %s succeeded, yet at the quiescent point afterwards the reconnector still counts %d consecutive attempts for it: the next retry would be delayed like retry %d instead of retry 0",
+						kBefore, a.name, n, n))
+				}
+				return
+			}
+			r.Add("after_success_not_sampled_no_hook", 1)
+			// fallback synchronisation without the hook (not a verdict)
 			if rearmed != nil {
-				// an implementation that keeps the re-armed retry stays pending: bounded wait only
 				deadline := time.Now().Add(50 * time.Millisecond)
 				for u.rec.IsPending(a.name) && time.Now().Before(deadline) {
 					time.Sleep(200 * time.Microsecond)
@@ -586,18 +617,18 @@ func c31UnitCase(r *verifkit.R, phase string, ci int, rng *verifkit.Rand) {
 			a := verifkit.Pick(rng, infl)
 			p := rng.Intn(100)
 			switch {
-			case p < 30:
+			case p < 28:
 				finish(a, false, false)
-			case p < 45:
+			case p < 41:
 				finish(a, false, true)
-			case p < 55:
+			case p < 50:
 				finish(a, true, false)
-			case p < 67:
+			case p < 60:
 				// hold the attempt in flight long enough for a leaked timer to show
 				d := u.upper(a.k) + 10*time.Millisecond
 				u.log("hold", a.name, fmt.Sprintf("%v", d))
 				u.wait(d)
-			case p < 85:
+			case p < 77:
 				// Pause needs every armed address to be safely before its timer: gather them
 				// in flight first when there are others
 				ok := true
@@ -613,7 +644,7 @@ func c31UnitCase(r *verifkit.R, phase string, ci int, rng *verifkit.Rand) {
 						quieted = false
 					}
 				}
-			case p < 89:
+			case p < 83:
 				// Cancel()/Reset() while the attempt is in flight, optionally Schedule() anew, and the
 				// old attempt ends right away: its outcome belongs to the cancelled sequence and must
 				// neither arm a further retry nor disturb the new schedule
@@ -644,7 +675,9 @@ func c31UnitCase(r *verifkit.R, phase string, ci int, rng *verifkit.Rand) {
 				// Schedule() cannot have fired before the attempt ended (checked by the clock)
 				schedule(a, "external-while-in-flight")
 				arm := a.pending
-				finish(a, rng.Chance(1, 4), false)
+				// after earlier failures the attempt more often succeeds: "the connection came up and
+				// dropped again before the attempt returned"
+				finish(a, rng.Chance(1, 4) || (a.k >= 2 && rng.Bool()), false)
 				if arm != nil && time.Since(arm.t) >= u.lower(arm.k)/2 {
 					u.abandon("attempt ended too late after the external Schedule()")
 				}
@@ -733,12 +766,18 @@ func TestVerif_C31Manager(t *testing.T) {
 	r.Rule("one case = one real peer.Manager with a persistent peer over an in-memory transport whose Dial is scripted by the PRNG " +
 		"(fail / hold then fail / succeed with a real handshake, then the link is cut) with DisconnectAll() (pause) during an attempt and ReconnectAll() later; " +
 		"non-trivial = >=2 retry delays judged and a pause or a success in the walk; distinct by config+walk")
-	n := r.N(90, 1500)
+	c31InstallFireHook()
+	c31InstallDiscHook()
+	n := r.N(120, 1500)
 	r.ParCases("mgr", n, 12, func(ci int, rng *verifkit.Rand) { c31ManagerCase(r, "mgr", ci, rng) })
 	r.Require("attempt_starts", 200)
 	r.Require("lower_bounds_judged", 150)
 	r.Require("cases_with_pause_during_attempt", 15)
 	r.Require("successful_handshakes", 10)
+	if verifhook.Enabled {
+		r.Require("after_success_resets_judged", 15)
+		r.Require("after_success_resets_judged_with_drop_during_attempt", 5)
+	}
 }
 
 func c31ID(rng *verifkit.Rand) identity.AgentID {
@@ -796,6 +835,11 @@ func c31ManagerCase(r *verifkit.R, phase string, ci int, rng *verifkit.Rand) {
 		}
 	}
 	connected := make(chan *peer.Connection, 16)
+	var holdMu sync.Mutex
+	var holdConnected chan struct{} // when set, OnPeerConnected (which runs inside the reconnect attempt) waits on it
+	discExit := &c31DiscCounter{}
+	c31DiscSinks.Store(idA, discExit)
+	defer c31DiscSinks.Delete(idA)
 	mcfg := peer.DefaultManagerConfig(idA, tr)
 	mcfg.HandshakeTimeout = 5 * time.Second
 	mcfg.KeepaliveInterval = time.Hour
@@ -807,8 +851,19 @@ func c31ManagerCase(r *verifkit.R, phase string, ci int, rng *verifkit.Rand) {
 		case connected <- c:
 		default:
 		}
+		holdMu.Lock()
+		h := holdConnected
+		holdMu.Unlock()
+		if h != nil {
+			select {
+			case <-h:
+			case <-m.dead:
+			}
+		}
 	}
 	mgr := peer.NewManager(mcfg)
+	track := c31NewTrack(peer.C31Reconnector(mgr))
+	defer c31Tracks.Delete(peer.C31Reconnector(mgr))
 	mgr.AddPeer(peer.PeerInfo{Address: addr, Persistent: true})
 	var bg sync.WaitGroup
 	defer func() {
@@ -840,12 +895,43 @@ func c31ManagerCase(r *verifkit.R, phase string, ci int, rng *verifkit.Rand) {
 	}
 	// finish ends the in-flight dial. On failure Manager.Connect calls Schedule and (for a
 	// retry) the reconnector re-arms: both are arming events of the same retry.
+	// judgeReset samples the reconnector's failure count at a quiescent point after a success.
+	judgeReset := func(kBefore int, dropped bool) {
+		rec := peer.C31Reconnector(mgr)
+		if n, ok := track.atRest(addr, func() int { return rec.GetAttempts(addr) }); ok {
+			r.Add("after_success_resets_judged", 1)
+			if dropped {
+				r.Add("after_success_resets_judged_with_drop_during_attempt", 1)
+			}
+			if n != 0 {
+				cls := "plain-success"
+				if dropped {
+					cls = "schedule-during-succeeding-attempt"
+				}
+				m.violate(cls+":failure-count-not-reset-after-success", fmt.Sprintf(
+					"retry %d of %s succeeded (dial + handshake), yet at the quiescent point afterwards the reconnector still counts %d consecutive attempts: the next retry would be delayed like retry %d instead of retry 0",
+					kBefore, addr, n, n))
+			}
+		} else {
+			r.Add("after_success_not_sampled_no_hook", 1)
+		}
+	}
+	dropDuringAttempt := false // next successful retry: cut the link before handleReconnect returns
 	finish := func(ok bool) bool {
 		ev := a.inflight
 		a.inflight = nil
 		t := time.Now()
 		if ok {
-			m.log("dial-succeeds", addr, "")
+			drop := dropDuringAttempt && !ev.direct
+			dropDuringAttempt = false
+			var hold chan struct{}
+			if drop {
+				hold = make(chan struct{})
+				holdMu.Lock()
+				holdConnected = hold
+				holdMu.Unlock()
+			}
+			m.log("dial-succeeds", addr, map[bool]string{true: "link-will-drop-before-the-attempt-returns", false: ""}[drop])
 			ev.reply <- c31Reply{}
 			tm := time.NewTimer(c31Watchdog)
 			defer tm.Stop()
@@ -855,6 +941,43 @@ func c31ManagerCase(r *verifkit.R, phase string, ci int, rng *verifkit.Rand) {
 				r.Inconclusive("handshake over the in-memory transport did not complete")
 				m.broken = true
 				return false
+			}
+			if drop {
+				// The attempt is still inside OnPeerConnected. The remote end goes away now: the read
+				// loop reports it and handleDisconnect calls Schedule() while the (succeeding) attempt
+				// is in flight. peer.disconnect.exit tells us that this has happened.
+				kBefore := ev.kAtStart
+				before := discExit.get()
+				if !c31Poll(func() bool { bmu.Lock(); defer bmu.Unlock(); return len(bEnds) > 0 }) {
+					r.Inconclusive("remote end of an established connection never appeared")
+					m.broken = true
+					return false
+				}
+				bmu.Lock()
+				ends := bEnds
+				bEnds = nil
+				bmu.Unlock()
+				tCut := time.Now()
+				for _, c := range ends {
+					c.Close()
+				}
+				m.log("remote-closes-link", addr, "while-attempt-in-flight")
+				deadline := time.Now().Add(2 * time.Second) // synchronisation only; without the hook we just go on
+				for discExit.get() == before && time.Now().Before(deadline) {
+					time.Sleep(100 * time.Microsecond)
+				}
+				holdMu.Lock()
+				holdConnected = nil
+				holdMu.Unlock()
+				close(hold)
+				m.sawSuccess = true
+				r.Add("successful_handshakes", 1)
+				a.forget()
+				// the retry requested by that disconnect may or may not survive the success; if it
+				// comes it is retry 0 of a new run
+				a.optional = &c31Arm{t: tCut, k: 0, n: 1}
+				judgeReset(kBefore, true)
+				return !m.broken
 			}
 			// synchronise (not a verdict): the reconnector must have handled the success before
 			// the link is cut, otherwise the Schedule() of the disconnect is swallowed
@@ -866,7 +989,10 @@ func c31ManagerCase(r *verifkit.R, phase string, ci int, rng *verifkit.Rand) {
 			m.sawSuccess = true
 			r.Add("successful_handshakes", 1)
 			a.forget()
-			return true
+			if !ev.direct {
+				judgeReset(ev.kAtStart, false)
+			}
+			return !m.broken
 		}
 		m.sawFail = true
 		m.log("dial-fails", addr, "")
@@ -925,6 +1051,14 @@ func c31ManagerCase(r *verifkit.R, phase string, ci int, rng *verifkit.Rand) {
 				m.log("hold", addr, fmt.Sprintf("%v", d))
 				m.wait(d)
 			case p < 65:
+				if !a.inflight.direct && a.k >= 1 && rng.Chance(2, 3) {
+					// the new connection drops before the reconnect attempt has returned
+					dropDuringAttempt = true
+					if !finish(true) {
+						return
+					}
+					break
+				}
 				if finish(true) && rng.Chance(3, 4) {
 					cutLink()
 				} else {
@@ -970,6 +1104,17 @@ func c31ManagerCase(r *verifkit.R, phase string, ci int, rng *verifkit.Rand) {
 				m.broken = true
 			}
 		default:
+			if a.optional != nil {
+				// a retry that may legitimately come (requested during a succeeding attempt): give it
+				// the time it would need, judge it if it comes, go on either way
+				m.log("wait-optional-retry", addr, "")
+				m.wait(m.upper(0) + 10*time.Millisecond)
+				if a.inflight == nil {
+					a.optional = nil
+					s = steps
+				}
+				break
+			}
 			s = steps
 		}
 	}
@@ -984,4 +1129,38 @@ func c31ManagerCase(r *verifkit.R, phase string, ci int, rng *verifkit.Rand) {
 		m.wait(m.upper(60) + 15*time.Millisecond)
 		r.Add("drain_periods", 1)
 	}
+}
+
+// ---- peer.disconnect.exit dispatch for the manager part (synchronisation only)
+
+type c31DiscCounter struct {
+	mu sync.Mutex
+	n  int
+}
+
+func (c *c31DiscCounter) get() int { c.mu.Lock(); defer c.mu.Unlock(); return c.n }
+
+var (
+	c31DiscSinks sync.Map // identity.AgentID -> *c31DiscCounter
+	c31DiscOnce  sync.Once
+)
+
+func c31InstallDiscHook() {
+	c31DiscOnce.Do(func() {
+		verifhook.Set("peer.disconnect.exit", func(args ...any) {
+			if len(args) < 1 {
+				return
+			}
+			id, ok := args[0].(identity.AgentID)
+			if !ok {
+				return
+			}
+			if c, ok := c31DiscSinks.Load(id); ok {
+				dc := c.(*c31DiscCounter)
+				dc.mu.Lock()
+				dc.n++
+				dc.mu.Unlock()
+			}
+		})
+	})
 }
